@@ -108,7 +108,14 @@ func (ex *Exec) staticCall(st *State, fr *Frame, callee *ssa.Function, binds []*
 		// a declared `func init()` is part of the package initialiser
 		cs = &FuncSpec{Key: key, Inline: true, Loops: map[int]*LoopSpec{}, Opaque: map[string]bool{}}
 	}
-	if cexMode && (cs == nil || !cs.Assumed) && len(body.Blocks) > 0 && strings.HasPrefix(funcPkgPath(body), modulePath) {
+	if boundedMode && cs == nil && len(body.Blocks) > 0 && strings.HasPrefix(funcPkgPath(body), modulePath) && !ex.onInlineStack(fr, body) {
+		// bounded stand-in: a module callee without contract (e.g. a new helper with a loop) is executed in place,
+		// its loops unrolled like the caller's; callees under contract are used through their contracts
+		ics := &FuncSpec{Key: key, Inline: true, Loops: map[int]*LoopSpec{}, Opaque: map[string]bool{}}
+		ex.inlineCall(st, fr, body, ics, subst, binds, args, instr, k)
+		return
+	}
+	if cexMode && !boundedMode && (cs == nil || !cs.Assumed) && len(body.Blocks) > 0 && strings.HasPrefix(funcPkgPath(body), modulePath) {
 		// counterexample search: use the callee's body instead of its contract
 		ics := &FuncSpec{Key: key, Inline: true, Loops: map[int]*LoopSpec{}, Opaque: map[string]bool{}}
 		ex.inlineCall(st, fr, body, ics, subst, binds, args, instr, k)
